@@ -174,6 +174,7 @@ def run(ctx):
               'restart() does not start the new incarnation from the last synchronised state', where=loc(ga, ga.node))
 
     # ---------------------------------------------------------------- R4 the getter sees the synchronised value
+    done = set()
     for name in PUBLIC:
         cls = P.cls(name)
         lc = lifecycle(ctx, cls)
@@ -186,6 +187,7 @@ def run(ctx):
             joins = reaches_join(ctx, cls, w, set())
             ctx.check('R4', f'{name}: the state is stored by the frontend thread, which wait() joins before reporting death', joins, w.short, 'frontend-not-joined',
                       f'{w.short} can report the worker dead without having joined the frontend thread that stores the state', where=loc(w, w.node))
+            check_wait_joins(ctx, cls, w, done)
             continue
         # deferred (process kinds): the store sits in _get_result; it must be reachable from the getter
         reach = reaches(ctx, cls, getter, lc.get_result.name, set())
@@ -220,3 +222,44 @@ def reaches_join(ctx, cls, func, seen, depth=0):
             if r and r[0] == 'func' and r[1].name == func.name and reaches_join(ctx, cls, r[1], seen, depth + 1):
                 return True
     return False
+
+
+def check_wait_joins(ctx, cls, w, done):
+    """R4 must-pass-through for the eager (remote) kinds: the frontend thread stores the outcome first and the state second, so
+    "the outcome is there" is no evidence that the state is.  On the parent side of wait(), every path to a return that can
+    report the worker dead passes the join of the frontend thread, a delegation to the inherited wait(), or the true side of a
+    dead guard (the dead flag itself is only set with such evidence - C04.R2)."""
+    from .c03 import split_regions
+    from .c04 import joins_child, guard_dsts, DEAD_GUARDS, in_stmts
+    chain = [w]
+    for c in calls_in(w.node):
+        r = ctx.prog.resolve_call(c, w, cls)
+        if r and r[0] == 'func' and r[1].name == 'wait' and r[1] is not w:
+            chain.append(r[1])
+    for f in chain:
+        if f.qualname in done:
+            continue
+        done.add(f.qualname)
+        ctx.used(f)
+        reg = split_regions(f)
+        stmts = reg['parent'] if reg else f.node.body
+        g = ctx.an.cfg(f, f.cls)
+
+        def evidence(call):
+            if joins_child(ctx, f.cls, call, f):
+                return True
+            r = ctx.prog.resolve_call(call, f, f.cls)
+            return bool(r and r[0] == 'func' and r[1].name == 'wait' and r[1] is not f)
+        ev = {n.id for n in g.nodes if n.stmt is not None and n.part == 'post' and any(evidence(c) for c in n.calls())}
+        ev |= guard_dsts(g, DEAD_GUARDS, 'true')
+        rets = [n for n in g.nodes if n.kind == 'return' and n.part in (None, 'eval') and in_stmts(n.stmt, stmts)
+                and not (isinstance(n.stmt.value, ast.Constant) and n.stmt.value.value in (False, None))]
+        ctx.floor(f'returns of {f.short} that can report death', len(rets), 1)
+        rid = {n.id for n in rets}
+        p = g.find_path([g.entry], lambda n: n.id in rid and n.id not in ev, edge_ok=lambda e: is_flow(e) and e.kind != 'exc', node_ok=lambda n: n.id not in ev)
+        ctx.check('R4', f'{f.short}: every return that can report the worker dead follows the join of the frontend thread (which stores the state)', p is None, f.short,
+                  'reports-death-before-frontend-joined',
+                  f'{f.short} can return a true value without having joined the frontend thread: the thread stores the outcome first and the user state second, so a caller that '
+                  'polls the outcome and then calls wait() reads the initial user_state after wait() returned True - and restart() passes that stale state on as init_state',
+                  where=loc(f, p[-1].dst.stmt) if p else loc(f, f.node), path=path_str(p or []))
+
